@@ -135,6 +135,7 @@ func openFS(kind string, dev backend.Storage, size int64) (filesystem.FileSystem
 }
 
 type walkStats struct {
+	began             time.Time
 	dirs, files, errs int
 	bytes             int64
 }
@@ -142,11 +143,18 @@ type walkStats struct {
 // walk lists every directory and reads every file, with harness-side bounds (depth, node count,
 // bytes per file) so that only a loop INSIDE a library call can exceed the deadline.
 func walk(fsys filesystem.FileSystem, dir string, depth int, st *walkStats, capBytes int64, readFiles bool) {
-	if depth > 10 || st.dirs+st.files > 3000 {
+	// harness-side bounds: depth, node count and 4 s of walking per case (a damaged tree may be huge or cyclic;
+	// that is the walker's problem, not the library's — only a single library call that does not return is a hang)
+	if depth > 8 || st.dirs+st.files > 600 || time.Since(st.began) > 4*time.Second {
 		return
 	}
 	st.dirs++
-	ents, err := fsys.ReadDir(dir)
+	type rd struct {
+		e   []fs.DirEntry
+		err error
+	}
+	r0 := timed(func() rd { e, err := fsys.ReadDir(dir); return rd{e, err} })
+	ents, err := r0.e, r0.err
 	if err != nil {
 		st.errs++
 		return
@@ -160,7 +168,7 @@ func walk(fsys filesystem.FileSystem, dir string, depth int, st *walkStats, capB
 		if dir != "." {
 			p = dir + "/" + name
 		}
-		if _, err := e.Info(); err != nil {
+		if err := timed(func() error { _, err := e.Info(); return err }); err != nil {
 			st.errs++
 		}
 		if e.IsDir() {
@@ -171,18 +179,28 @@ func walk(fsys filesystem.FileSystem, dir string, depth int, st *walkStats, capB
 		if !readFiles {
 			continue
 		}
-		if _, err := fsys.Stat(p); err != nil {
+		if err := timed(func() error { _, err := fsys.Stat(p); return err }); err != nil {
 			st.errs++
 		}
-		f, err := fsys.Open(p)
+		type op struct {
+			f   fs.File
+			err error
+		}
+		o0 := timed(func() op { f, err := fsys.Open(p); return op{f, err} })
+		f, err := o0.f, o0.err
 		if err != nil {
 			st.errs++
 			continue
 		}
 		buf := make([]byte, 64*1024)
 		var total int64
-		for total < capBytes {
-			n, err := f.Read(buf)
+		for total < capBytes && time.Since(st.began) < 6*time.Second {
+			type rr struct {
+				n   int
+				err error
+			}
+			r1 := timed(func() rr { n, err := f.Read(buf); return rr{n, err} })
+			n, err := r1.n, r1.err
 			total += int64(n)
 			if err != nil {
 				if err != io.EOF {
@@ -213,11 +231,16 @@ func runCase(kind string, base []byte, patch map[int64]byte) (outcome, detail st
 		}
 	}()
 	dev := &overlay{base: base, patch: patch, limit: int64(len(base))*4 + 64<<20}
-	fsys, err := openFS(kind, dev, int64(len(base)))
+	type of struct {
+		f   filesystem.FileSystem
+		err error
+	}
+	o := timed(func() of { f, err := openFS(kind, dev, int64(len(base))); return of{f, err} })
+	fsys, err := o.f, o.err
 	if err != nil {
 		return "error", "open"
 	}
-	st := &walkStats{}
+	st := &walkStats{began: time.Now()}
 	walk(fsys, ".", 0, st, int64(len(base))*2+1<<20, true)
 	if st.errs > 0 {
 		return "error", fmt.Sprintf("walk errs=%d dirs=%d files=%d", st.errs, st.dirs, st.files)
@@ -271,6 +294,16 @@ func panicSite() string {
 
 var currentCase atomic.Int64
 
+// callStart is the start time (UnixNano) of the library call in progress, 0 between calls: the deadline
+// applies to one library call, not to the harness's own walk over a (possibly cyclic) damaged tree.
+var callStart atomic.Int64
+
+func timed[T any](f func() T) T {
+	callStart.Store(time.Now().UnixNano())
+	defer callStart.Store(0)
+	return f()
+}
+
 // ChildMain: vh-damage --child <kind> <basefile> <casesfile> <from> <deadlineSec> <capMiB>
 // prints one line per case: "k <idx> <outcome> <detail>" and exits 0 when all are done.
 func ChildMain(args []string) {
@@ -310,7 +343,8 @@ func ChildMain(args []string) {
 	go func() {
 		for {
 			time.Sleep(200 * time.Millisecond)
-			if time.Duration(time.Now().UnixNano()-started.Load()) > time.Duration(deadline)*time.Second {
+			cs := callStart.Load()
+			if cs != 0 && time.Duration(time.Now().UnixNano()-cs) > time.Duration(deadline)*time.Second {
 				// the watchdog writes directly: the main goroutine may be spinning
 				fmt.Fprintf(os.Stdout, "k %d timeout deadline-%ds\n", currentCase.Load(), deadline)
 				os.Exit(3)
